@@ -140,9 +140,9 @@ def ensure_facts(config="full", verbose=False):
             f.write("files=%d wall=%.1f\n" % (nfiles, time.time() - t0))
         if verbose:
             print("extract: %s facts in %.1fs -> %s" % (config, time.time() - t0, out))
-        # keep the cache small: drop all but the 120 newest fact dirs (28 MB each; scratch copies of seeded changes are shared between checks)
+        # keep the cache small: drop all but the 220 newest fact dirs (28 MB each; scratch copies of seeded changes are shared between checks)
         dirs = sorted(glob.glob(os.path.join(CACHE, "facts", "*-*")), key=os.path.getmtime)
-        for d in dirs[:-120]:
+        for d in dirs[:-220]:
             shutil.rmtree(d, ignore_errors=True)
         return out
     finally:
